@@ -19,7 +19,8 @@ RULE = ('case = stream of 0..6 column-dict batches (features over 2..4 categorie
         'several masks, filter vs replace) x entry point; oracle = brute-force group-by over the concatenated rows; result dict '
         'must be equal as a mapping (no invented/dropped MetricKey), all entry points agree, dropping the slicers leaves the '
         'unsliced keys unchanged; non-trivial = >= 2 batches, >= 1 slicer and a slice value absent from some batch; distinct = '
-        'distinct canonical case JSON')
+        'distinct canonical case JSON'
+        '; also: apply_mask directly over every documented (items, masks) shape pair (scenario mask_application); value sets as tuple/list/bare value, substring feature values, fractional fill values (sums in half units), batches of 17..40 rows with a high-cardinality feature')
 ASSUMPTIONS = [
     'aggregates are exact (integer sums/counts, Counter) so the check is independent of floating-point batching effects (C01)',
     'restricted value sets only on single-feature slicers; slice values hashable; mask shapes equal the masked input shapes (documented)',
